@@ -144,6 +144,9 @@ def one_d(eng, rows, weighted=True):
         orc = C.to_array([world.mass(lambda p, i=i: rax.valid(i, p), weight) for i in range(len(rax))])
         Bs[weight] = orc
         obs.append(Obs(prop, getattr(part, prop), orc))
+    # the slice-compatible marginals of a strand: weighted / unweighted count of each row
+    obs.append(Obs("rows_margin", part.rows_margin, C.to_array([world.mass(lambda p, i=i: rax.member(i, p), wm) for i in range(len(rax))])))
+    obs.append(Obs("rows_base", part.rows_base, C.to_array([world.mass(lambda p, i=i: rax.member(i, p), "u") for i in range(len(rax))])))
     nbase = len([e for e in rax.elems if e[0] != "sub"])
     obs.append(Obs("table_margin_range", part.table_margin_range, _minmax(eng, Bs[wm][:nbase])))
     obs.append(Obs("table_base_range", part.table_base_range, _minmax(eng, Bs["u"][:nbase])))
